@@ -222,7 +222,16 @@ def translate():
     except Exception:
         rep['sperm'] = {'error': out11[-500:]}
         rep['untranslatable'].append({'name': 'static_permutation.hpp', 'group': 'StaticPerm', 'why': out11[-500:]})
-    return rep, out + out2 + out3 + out4 + out5 + out6 + out7 + out8 + out9 + out10 + out11
+    # the re-layout copy functions as copy schemes (Gen_Copy.v)
+    rc12, out12 = sh([sys.executable, os.path.join(VERIF, 'tools', 'cxx_copy.py'), REPO, os.path.join(COQ, 'gen', 'Gen_Copy.v')], timeout=400)
+    try:
+        rep['copy'] = json.loads(out12.strip().split('\n')[-1])
+        for pr in rep['copy']['problems']:
+            rep['untranslatable'].append({'name': 'make_*_copy', 'group': 'Copy', 'why': pr})
+    except Exception:
+        rep['copy'] = {'error': out12[-500:]}
+        rep['untranslatable'].append({'name': 'make_*_copy', 'group': 'Copy', 'why': out12[-500:]})
+    return rep, out + out2 + out3 + out4 + out5 + out6 + out7 + out8 + out9 + out10 + out11 + out12
 
 
 def coq_makefile():
